@@ -36,6 +36,21 @@
 (*                          kwargs.get(n1, kwargs.get(n2, d))               *)
 (*            chain a chain of helper functions (sigs), chain[j] calls      *)
 (*                  chain[j+1] when its own fwd.k = "next"                  *)
+(*            (round 4) a SECOND use of **kwargs in the same def, written   *)
+(*            as the else-branch of an if around the forwarding call:       *)
+(*            amode "-"     none                                            *)
+(*                  "if"    if _cond(): <call> else: g(ahard..., **kwargs)  *)
+(*                          the test is a run-time value (P.cv): documented *)
+(*                          "conditional calls"                             *)
+(*                  "glob"  if G: <call> else: g(...)   G a module global   *)
+(*                  "nglob" if not G: <call> else: g(...)  whose value is   *)
+(*                          aflag: documented "constant conditional", the   *)
+(*                          resolver only looks at the branch that runs     *)
+(*            alt   <<sig>> the function g (owner label F<cid>.4 / Q<cid>.4)*)
+(*            ahard names hard-coded at the call of g                       *)
+(*            pre   ("attr" with av "upd" / "dict") names the stored dict   *)
+(*                  is pre-filled with: self._kw = dict(p=1); .update(      *)
+(*                  **kwargs)  |  self._kw = dict(p=1, **kwargs)            *)
 (*   sig    [has, ps, kw, fw]   a def: has = it exists, ps = named params,  *)
 (*                              kw = it takes **kwargs, fw = its fwd        *)
 (*   class  [bases |-> <<index, ...>>, init |-> sig, m |-> sig]            *)
@@ -66,7 +81,8 @@ ReqOf(ps)   == {ps[i].n : i \in {j \in DOMAIN ps : ps[j].d = "req"}}
 PosIn(s, x) == LET S == {i \in DOMAIN s : s[i] = x} IN IF S = {} THEN 0 ELSE MinOf(S)
 Str(n)      == ToString(n)
 
-NoFwd  == [k |-> "ignore", b |-> 0, hard |-> << >>, pos |-> 0, q |-> << >>, qop |-> "pop", qpos |-> "stmt", av |-> "-", chain |-> << >>]
+NoFwd  == [k |-> "ignore", b |-> 0, hard |-> << >>, pos |-> 0, q |-> << >>, qop |-> "pop", qpos |-> "stmt", av |-> "-", chain |-> << >>,
+           amode |-> "-", aflag |-> FALSE, ahard |-> << >>, alt |-> << >>, pre |-> << >>]
 NoSig  == [has |-> FALSE, ps |-> << >>, kw |-> FALSE, fw |-> NoFwd]
 
 (***************************************************************************)
@@ -137,22 +153,38 @@ Arrive(sig, K, np) ==
 \* what the callee binds for the hard-coded names was not passed by our caller
 Back(r, mine, hard) == IF r.ok THEN Ok(mine \cup {b \in r.bind : b.n \notin hard}) ELSE Fail
 
+\* (round 4) which branch of `if <test>: <call> else: g(...)` runs: the else-branch when the run-time test (P.cv) is
+\* false / the module global has the value that makes the test false.  Eff is the forwarding that really happens:
+\* kind "alt" = the call of g with ITS hard-coded names (a pop/get nested in the arguments of the other call does
+\* not happen then)
+TakeAlt(P, fw) == CASE fw.amode = "if"    -> ~P.cv
+                    [] fw.amode = "glob"  -> ~fw.aflag
+                    [] fw.amode = "nglob" -> fw.aflag
+                    [] OTHER              -> FALSE
+Eff(P, fw) == IF TakeAlt(P, fw)
+              THEN [fw EXCEPT !.k = "alt", !.hard = fw.ahard, !.pos = 0, !.q = IF fw.qpos \in {"arg", "kw"} THEN << >> ELSE fw.q]
+              ELSE fw
+\* g is the function number 4 of the def's helper functions (labels F<cid>.4 / Q<cid>.4; the chains have depth <= 3)
+AltChain(fw) == <<NoSig, NoSig, NoSig, fw.alt[1]>>
+
 RECURSIVE RefFn(_, _, _, _, _, _)
 RECURSIVE RefInit(_, _, _, _, _)
 RefFn(P, chain, j, cid, K, np) ==
   LET s      == chain[j]
       a      == Arrive(s, K, np)
-      popped == a.rest \cap SetOf(s.fw.q)
-      mine   == Named(s, FLab[cid][j], K) \cup Pops(QLab[cid][j], s.fw, popped)
-      rest   == IF s.fw.qop = "pop" THEN a.rest \ popped ELSE a.rest
-      hard   == SetOf(s.fw.hard)
+      fw     == IF s.kw THEN Eff(P, s.fw) ELSE s.fw
+      popped == a.rest \cap SetOf(fw.q)
+      mine   == Named(s, FLab[cid][j], K) \cup Pops(QLab[cid][j], fw, popped)
+      rest   == IF fw.qop = "pop" THEN a.rest \ popped ELSE a.rest
+      hard   == SetOf(fw.hard)
   IN IF ~a.ok THEN Fail
      ELSE IF ~s.kw THEN Ok(Named(s, FLab[cid][j], K))
-     ELSE IF s.fw.k = "ignore" THEN Ok(mine)
+     ELSE IF fw.k = "ignore" THEN Ok(mine)
      ELSE IF hard \cap rest # {} THEN Fail
-     ELSE IF s.fw.k = "new" THEN Back(RefInit(P, Mro(P, s.fw.b), 1, rest \cup hard, s.fw.pos), mine, hard)
+     ELSE IF fw.k = "alt" THEN (IF Len(fw.alt) = 0 THEN Fail ELSE Back(RefFn(P, AltChain(fw), 4, cid, rest \cup hard, 0), mine, hard))
+     ELSE IF fw.k = "new" THEN Back(RefInit(P, Mro(P, fw.b), 1, rest \cup hard, fw.pos), mine, hard)
      ELSE IF j >= Len(chain) THEN Fail
-     ELSE Back(RefFn(P, chain, j + 1, cid, rest \cup hard, s.fw.pos), mine, hard)
+     ELSE Back(RefFn(P, chain, j + 1, cid, rest \cup hard, fw.pos), mine, hard)
 
 RefMeth(P, Y, K, np) == LET a == Arrive(P.classes[Y].m, K, np) IN IF a.ok THEN Ok(Named(P.classes[Y].m, MLab[Y], K)) ELSE Fail
 
@@ -165,7 +197,7 @@ RefInit(P, mro, pos, K, np) ==
   ELSE LET X  == mro[k]
            I  == P.classes[X].init
            a  == Arrive(I, K, np)
-           fw == I.fw
+           fw == IF I.kw THEN Eff(P, I.fw) ELSE I.fw
            popped == a.rest \cap SetOf(fw.q)
            mine   == Named(I, CLab[X], K) \cup Pops(PLab[X], fw, popped)
            rest   == IF fw.qop = "pop" THEN a.rest \ popped ELSE a.rest
@@ -178,8 +210,14 @@ RefInit(P, mro, pos, K, np) ==
           ELSE CASE fw.k = "super0" -> Back(RefInit(P, mro, k + 1, send, fw.pos), mine, hard)
                  [] fw.k = "superB" -> LET kb == PosIn(mro, fw.b) IN
                                        IF kb = 0 THEN Fail ELSE Back(RefInit(P, mro, kb + 1, send, fw.pos), mine, hard)
-                 [] fw.k \in {"func", "attr"} ->
-                                       IF Len(fw.chain) = 0 THEN Fail ELSE Back(RefFn(P, fw.chain, 1, X, send, fw.pos), mine, hard)
+                 [] fw.k = "func"   -> IF Len(fw.chain) = 0 THEN Fail ELSE Back(RefFn(P, fw.chain, 1, X, send, fw.pos), mine, hard)
+                 \* (round 4) a pre-filled stored dict: dict(p=1, **kwargs) raises "multiple values" when the caller passes p,
+                 \* d = dict(p=1); d.update(**kwargs) lets the caller's value win; what the callee binds for a pre-filled
+                 \* name that the caller did not pass was not passed by the caller
+                 [] fw.k = "attr"   -> LET pre == SetOf(fw.pre) IN
+                                       IF Len(fw.chain) = 0 \/ (fw.av = "dict" /\ pre \cap rest # {}) \/ hard \cap pre # {} THEN Fail
+                                       ELSE Back(RefFn(P, fw.chain, 1, X, send \cup pre, fw.pos), mine, hard \cup (pre \ rest))
+                 [] fw.k = "alt"    -> IF Len(fw.alt) = 0 THEN Fail ELSE Back(RefFn(P, AltChain(fw), 4, X, send, 0), mine, hard)
                  [] fw.k = "meth"   -> LET y == DefIn(P, mro, 1, "m") IN       \* self.m: looked up on type(self)
                                        IF y = 0 THEN Fail ELSE Back(RefMeth(P, mro[y], send, fw.pos), mine, hard)
                  [] fw.k = "new"    -> Back(RefInit(P, Mro(P, fw.b), 1, send, fw.pos), mine, hard)   \* a fresh object of class b
@@ -203,7 +241,12 @@ Entered(P, mro, pos, fuel) ==
                            [] OTHER           -> {})
 AllMatter(P, c) == {x \in DOMAIN P.classes : P.classes[x].init.has} \subseteq Entered(P, Mro(P, c), 1, 2 * Len(P.classes) + 2)
 
-Run(P, comp, K) == IF comp.k = "cls" THEN RefInit(P, Mro(P, comp.c), 1, K, 0) ELSE RefFn(P, comp.chain, 1, 0, K, 0)
+\* (round 4) the value of the run-time test of the `if` around two uses is part of the run: P.cv
+PW(P, v) == [classes |-> P.classes, cv |-> v]
+Run(P, comp, K) == IF comp.k = "cls" THEN RefInit(PW(P, FALSE), Mro(P, comp.c), 1, K, 0) ELSE RefFn(PW(P, FALSE), comp.chain, 1, 0, K, 0)
+SigHasIf(sg) == sg.has /\ sg.kw /\ sg.fw.amode = "if"
+HasIf(P, comp) == (\E c \in DOMAIN P.classes : SigHasIf(P.classes[c].init)) \/ (comp.k = "fn" /\ \E j \in DOMAIN comp.chain : SigHasIf(comp.chain[j]))
+CVs(P, comp) == IF HasIf(P, comp) THEN {FALSE, TRUE} ELSE {FALSE}
 
 (***************************************************************************)
 (* Ref layer 3: the property's vocabulary, derived from the call semantics *)
@@ -212,33 +255,46 @@ Run(P, comp, K) == IF comp.k = "cls" THEN RefInit(P, Mro(P, comp.c), 1, K, 0) EL
 (* notions take the table T.                                               *)
 (***************************************************************************)
 RunTable(P, comp, U) ==
-  IF comp.k = "cls" THEN LET mro == Mro(P, comp.c) IN {[K |-> K, r |-> RefInit(P, mro, 1, K, 0)] : K \in SUBSET U}
-  ELSE {[K |-> K, r |-> RefFn(P, comp.chain, 1, 0, K, 0)] : K \in SUBSET U}
+  IF comp.k = "cls" THEN LET mro == Mro(P, comp.c) IN {[K |-> K, cv |-> v, r |-> RefInit(PW(P, v), mro, 1, K, 0)] : K \in SUBSET U, v \in CVs(P, comp)}
+  ELSE {[K |-> K, cv |-> v, r |-> RefFn(PW(P, v), comp.chain, 1, 0, K, 0)] : K \in SUBSET U, v \in CVs(P, comp)}
+\* (round 4) the part of the table for one value of the run-time test; the laws below hold per slice, the legal
+\* parameters are those of all slices together ("a call can legally pass"), and a parameter that some callable slice
+\* does not accept must be offered as Conditional (documented: "the parser does not know which of the calls will be
+\* used at runtime, and adding them would cause instantiate_classes to fail")
+Slice(T, v)  == {e \in T : e.cv = v}
+SlicesOf(T)  == {Slice(T, v) : v \in {e.cv : e \in T}}
 Succ(T)      == {x \in T : x.r.ok}                                    \* the calls that succeed
 OKSets(T)    == {e.K : e \in Succ(T)}
-Callable(T)  == Succ(T) # {}                                          \* some call succeeds (a set test: safe inside actions)
+\* some call succeeds (a set test: safe inside actions); (round 4) for every value of the run-time test: a program
+\* one of whose branches can only raise is not a component anybody can use
+Callable(T)  == Succ(T) # {} /\ \A v \in {e.cv : e \in T} : \E e \in Succ(T) : e.cv = v
 Required(T)  == LET ok == OKSets(T) IN {n \in UNION ok : \A K \in ok : n \in K}
 Accepted(T)  == UNION OKSets(T)                                       \* no TypeError when passed
 Bindings(T)  == UNION {e.r.bind : e \in Succ(T)}                      \* declarations [o, n, t, d] that can receive a keyword
 LegalKw(T)   == {b.n : b \in Bindings(T)}                             \* the NAMED parameters a call can pass
 \* what the property says must be offered: each legal name with the type and default of the signature it is bound in
 RefOffer(T)  == Bindings(T)
+Everywhere(T) == {n \in Accepted(T) : \A S \in SlicesOf(T) : n \in Accepted(S)}
+UncondOK(T, alg) == \A d \in alg : d.d = "cond" \/ d.n \in Everywhere(T)
 
 \* the keyword universe of a program: every name that occurs in it (declared, popped, hard-coded) and one that does not
-ChainNames(chain) == UNION {NamesOf(chain[j].ps) \cup SetOf(chain[j].fw.q) \cup SetOf(chain[j].fw.hard) : j \in DOMAIN chain}
-ClassNames(cl)    == NamesOf(cl.init.ps) \cup NamesOf(cl.m.ps) \cup SetOf(cl.init.fw.q) \cup SetOf(cl.init.fw.hard) \cup ChainNames(cl.init.fw.chain)
+ChainNames(chain) == UNION {NamesOf(chain[j].ps) \cup SetOf(chain[j].fw.q) \cup SetOf(chain[j].fw.hard) \cup SetOf(chain[j].fw.ahard)
+                               \cup UNION {NamesOf(chain[j].fw.alt[x].ps) \cup SetOf(chain[j].fw.alt[x].fw.q) : x \in DOMAIN chain[j].fw.alt} : j \in DOMAIN chain}
+FwNames(fw)       == SetOf(fw.q) \cup SetOf(fw.hard) \cup SetOf(fw.ahard) \cup SetOf(fw.pre) \cup UNION {NamesOf(fw.alt[j].ps) \cup SetOf(fw.alt[j].fw.q) : j \in DOMAIN fw.alt}
+ClassNames(cl)    == NamesOf(cl.init.ps) \cup NamesOf(cl.m.ps) \cup FwNames(cl.init.fw) \cup ChainNames(cl.init.fw.chain)
 Universe(P, comp) == {"zz"} \cup (IF comp.k = "fn" THEN ChainNames(comp.chain) ELSE {}) \cup UNION {ClassNames(P.classes[c]) : c \in DOMAIN P.classes}
 
 \* laws of the reference itself (checked by TLC on the bounded instance; they are what makes "the set of legal
 \* keywords" well defined: keywords are routed independently of each other)
-LawIndependent(T) ==      \* the accepted keyword sets are exactly those between the required and the accepted names
-  Callable(T) => LET req == Required(T)  acc == Accepted(T) IN \A e \in T : e.r.ok <=> (req \subseteq e.K /\ e.K \subseteq acc)
-LawAllOffered(T) ==       \* instantiating with EVERY legal parameter does not raise
-  Callable(T) => LET all == Required(T) \cup LegalKw(T) IN \E e \in T : e.K = all /\ e.r.ok
-LawOneOwner(T) ==         \* a keyword is bound in one place, whatever else is passed
-  LET B == Bindings(T) IN \A b1, b2 \in B : b1.n = b2.n => b1 = b2
-LawStableOwner(T) ==
-  LET B == Bindings(T) IN \A e \in Succ(T) : e.r.bind = {b \in B : b.n \in e.K}
+\* (round 4: stated per slice, i.e. per value of the run-time test)
+LawIndependent(T0) ==     \* the accepted keyword sets are exactly those between the required and the accepted names
+  \A T \in SlicesOf(T0) : Callable(T) => LET req == Required(T)  acc == Accepted(T) IN \A e \in T : e.r.ok <=> (req \subseteq e.K /\ e.K \subseteq acc)
+LawAllOffered(T0) ==      \* instantiating with EVERY legal parameter does not raise
+  \A T \in SlicesOf(T0) : Callable(T) => LET all == Required(T) \cup LegalKw(T) IN \E e \in T : e.K = all /\ e.r.ok
+LawOneOwner(T0) ==        \* a keyword is bound in one place, whatever else is passed
+  \A T \in SlicesOf(T0) : LET B == Bindings(T) IN \A b1, b2 \in B : b1.n = b2.n => b1 = b2
+LawStableOwner(T0) ==
+  \A T \in SlicesOf(T0) : LET B == Bindings(T) IN \A e \in Succ(T) : e.r.bind = {b \in B : b.n \in e.K}
 
 (***************************************************************************)
 (* Alg layer: _parameter_resolvers.py                                      *)
@@ -273,6 +329,8 @@ LawStableOwner(T) ==
 (*      AttributeError escaped and the assumptions resolver answered).     *)
 (*      The transcription below is the repaired code: a list that starts   *)
 (*      with a conditional parameter counts as a non-pop/get use.          *)
+(* (round 4) (D5) "hard-other-use", (D6) "empty-branch", (D7) "prefilled-  *)
+(*      dict": see AstKwargs.                                              *)
 (* (D4) "double-positional": a class that INHERITS an __init__ whose body  *)
 (*      is super().__init__(value, **kwargs): current_mro points at the    *)
 (*      subclass, get_mro_parameters:475-483 selects the defining class    *)
@@ -352,8 +410,14 @@ AstKwargs(PT, parent, fw, ms, plab, ctx) ==
       \* unknown ("expr") when it is not a literal
       poplists == [i \in DOMAIN fw.q |-> << [n |-> fw.q[i], t |-> "none", d |-> PopDflt(fw, fw.q[i]), o |-> plab, kind |-> "ko", org |-> "pg"] >>]
       \* 787-805  the call that receives **kwargs; each target is asked through get_signature_parameters
+      \* (round 4) visit_If:593-603: an `if` whose test is a module global (or `not` one) is replaced by the branch
+      \* that the CURRENT value selects, so only that use is recorded; any other test: both branches are visited,
+      \* body first
+      skip1 == (fw.amode = "glob" /\ ~fw.aflag) \/ (fw.amode = "nglob" /\ fw.aflag)
+      skip2 == fw.amode = "-" \/ (fw.amode = "glob" /\ fw.aflag) \/ (fw.amode = "nglob" /\ ~fw.aflag) \/ Len(fw.alt) = 0
       call ==
-        CASE fw.k = "ignore" -> Res(<< >>, ms, {})
+        CASE skip1 -> Res(<< >>, ms, {})
+          [] fw.k = "ignore" -> Res(<< >>, ms, {})
           [] fw.k = "super0" ->                                                          \* 217-221: super() is supported
                LET num == NextInMro(PT, ms) IN
                IF num = 0 THEN Res(<< >>, ms, {}) ELSE Again(GspClass(PT, ms.cl[num], "init", [ms EXCEPT !.ix = num]), ms.cl[num])
@@ -377,15 +441,30 @@ AstKwargs(PT, parent, fw, ms, plab, ctx) ==
           [] OTHER           -> Res(<< >>, ms, {})
       given   == RemoveGiven(hard, fw.pos, call.ps)                                      \* 802 / 691
       \* removed_params: 802 passes the set, match_call_that_uses_attr:691 does not
-      removed == IF fw.k = "attr" THEN {} ELSE RemovedBy(hard, fw.pos, call.ps)
+      removed1 == IF fw.k = "attr" \/ skip1 THEN {} ELSE RemovedBy(hard, fw.pos, call.ps)
+      \* (round 4) the second use: g(ahard..., **kwargs), a function of the module (get_node_component:652-653); the
+      \* context variable is whatever the first use left behind; ONE removed_params set serves all uses (779, 803, 818)
+      call2    == IF skip2 THEN Res(<< >>, call.ms, {}) ELSE GspFn(AltChain(fw), 4, ctx.cid, [PT |-> PT, ms |-> call.ms])
+      given2   == RemoveGiven(SetOf(fw.ahard), 0, call2.ps)
+      removed2 == IF skip2 THEN {} ELSE RemovedBy(SetOf(fw.ahard), 0, call2.ps)
+      removed  == removed1 \cup removed2
+      nested   == fw.qpos \in {"arg", "kw"}
       \* 803-805 (for "attr" after group_parameters of the single match, 858, which changes nothing here).  The lists are
       \* in the order visit_Call:578-590 records the uses: a call is recorded BEFORE its arguments are visited, so a
       \* pop/get nested in the arguments of the forwarding call comes after it
-      fwdlist == IF Len(given) > 0 THEN << AddNodeOrigins(given) >> ELSE << >>
-      lists   == IF fw.qpos \in {"arg", "kw"} THEN fwdlist \o poplists ELSE poplists \o fwdlist
-      ev      == call.ev \cup (IF removed \cap SetOf(fw.q) # {} THEN {"pop-then-hard"} ELSE {})
-  IN IF Len(lists) = 0 THEN Res(<< >>, call.ms, ev)
-     ELSE Res(SelectSeq(GroupParameters(lists), LAMBDA p : p.n \notin removed), call.ms, ev)   \* 816-818 (no positional-only)
+      fwdlist == IF Len(given) > 0 THEN << AddNodeOrigins(given) >> ELSE << >>                 \* 804: `if params:`
+      fwdlist2 == IF Len(given2) > 0 THEN << AddNodeOrigins(given2) >> ELSE << >>
+      lists   == IF nested THEN fwdlist \o (IF skip1 THEN << >> ELSE poplists) \o fwdlist2 ELSE poplists \o fwdlist \o fwdlist2
+      ev      == call.ev \cup call2.ev \cup (IF removed \cap SetOf(fw.q) # {} THEN {"pop-then-hard"} ELSE {})
+                 \* (D5) a name hard-coded at ONE use is dropped from the parameters found through the OTHER use (818)
+                 \cup (IF removed1 \cap NamesOf(given2) # {} \/ removed2 \cap NamesOf(given) # {} THEN {"hard-other-use"} ELSE {})
+                 \* (D6) a use whose target has no parameter left is not counted as a use (804), so what the other branch
+                 \* offers stays unconditional
+                 \cup (IF fw.amode = "if" /\ Len(fw.alt) > 0 /\ ((Len(given) = 0) # (Len(given2) = 0)) THEN {"empty-branch"} ELSE {})
+                 \* (D7) self._kw = dict(p=1, **kwargs): only the keywords of the UNPACKING call are removed (691), p stays
+                 \cup (IF fw.k = "attr" /\ fw.av = "dict" /\ SetOf(fw.pre) \cap NamesOf(given) # {} THEN {"prefilled-dict"} ELSE {})
+  IN IF Len(lists) = 0 THEN Res(<< >>, call2.ms, ev)
+     ELSE Res(SelectSeq(GroupParameters(lists), LAMBDA p : p.n \notin removed), call2.ms, ev)   \* 816-818 (no positional-only)
 
 \* ParametersVisitor.get_parameters:867-883 for a function of a chain (no parent: mro_context does nothing)
 GspFn(chain, j, cid, env) ==
@@ -416,7 +495,10 @@ AlgResolve(P, comp) == AlgRun(P, comp).ps
 AlgNames(P, comp)   == NamesOf(AlgResolve(P, comp))
 DevOf(ev) == IF "static-dispatch" \in ev THEN "static-dispatch"
              ELSE IF "double-positional" \in ev THEN "double-positional"
-             ELSE IF "pop-then-hard" \in ev THEN "pop-then-hard" ELSE "-"
+             ELSE IF "pop-then-hard" \in ev THEN "pop-then-hard"
+             ELSE IF "hard-other-use" \in ev THEN "hard-other-use"
+             ELSE IF "empty-branch" \in ev THEN "empty-branch"
+             ELSE IF "prefilled-dict" \in ev THEN "prefilled-dict" ELSE "-"
 Deviation(P, comp)  == DevOf(AlgRun(P, comp).ev)
 
 (***************************************************************************)
@@ -429,5 +511,5 @@ OfferAgrees(ref, alg) ==
   /\ \A d \in alg : d.d = "cond" \/ d \in ref
 NoDup(ps) == \A i, j \in DOMAIN ps : ps[i].n = ps[j].n => i = j
 OfferOf(ps) == {[o |-> ps[i].o, n |-> ps[i].n, t |-> ps[i].t, d |-> ps[i].d] : i \in DOMAIN ps}
-C13Holds(P, comp, T) == Callable(T) => LET ps == AlgResolve(P, comp) IN NoDup(ps) /\ OfferAgrees(RefOffer(T), OfferOf(ps))
+C13Holds(P, comp, T) == Callable(T) => LET ps == AlgResolve(P, comp) IN NoDup(ps) /\ OfferAgrees(RefOffer(T), OfferOf(ps)) /\ UncondOK(T, OfferOf(ps))
 =============================================================================
